@@ -7,5 +7,5 @@ From VV Require Import Base.F64 Base.Values Interp.Strategy Mep.Genome Mep.Draws
 Local Ltac c02_scan1 := idtac.
 Extraction "mep_model.ml" random_ind mutation crossover get_block replace destroy_block cse inc_age
   force_xover random_team team_mutation team_crossover ind_ok_b crossover_ok_b ind_same_b wf_sset_b
-  provenance_b wf_genome_b cse_genome gene_cmp gene_cmp_old xover_of_Z Z_of_xover
+  active_loci blocks active_symbols provenance_b wf_genome_b cse_genome gene_cmp gene_cmp_old xover_of_Z Z_of_xover
   F64.of_bits F64.to_bits Z.add Z.mul Z.opp valid_draw_b.
